@@ -24,8 +24,8 @@ pub enum CVal {
     Ip6([u8; 16]),
     Mac(String),
     Bytes(Vec<u8>),
-    /// protocol number (discriminant of the ProtocolTypes variant reported)
-    Proto(u8),
+    /// name of the ProtocolTypes variant reported
+    Proto(String),
     Unknown(Vec<u8>),
 }
 
@@ -48,7 +48,7 @@ pub fn cval(v: &FieldValue) -> CVal {
         FieldValue::Ip6Addr(a) => CVal::Ip6(a.octets()),
         FieldValue::MacAddr(s) => CVal::Mac(s.clone()),
         FieldValue::Vec(v) => CVal::Bytes(v.clone()),
-        FieldValue::ProtocolType(p) => CVal::Proto(*p as u8),
+        FieldValue::ProtocolType(p) => CVal::Proto(format!("{:?}", p)),
         FieldValue::Unknown(v) => CVal::Unknown(v.clone()),
     }
 }
